@@ -121,6 +121,32 @@ CLAIMED = {
          "TLC judges StopCompletesWithoutPanic, StopInBoundedTime, EachSessionRemovedExactlyOnce (no residue, no failed or repeated delete) and the C02/C03 invariants on re-association and on the other associations.",
          "Schedules at the implementation are forced / sampled, not enumerated from the model's graph (edge cover through GEN is future work); bounded stop time is 5 s (20 s under the gating scheduler). " + TRUST,
          "5 C10"),
+ "C04": ("TLA+ R-specs Pfcp + Up4Image (image of the live sessions' rules in the UP4 pipeline, agent-chosen IDs existentially bound): TLC judges the state of the harness' own P4Runtime switch after every step of the real agent",
+         "The agent process runs with the UP4 plug-in against the harness' P4Runtime server, which serves the shipped P4Info and implements the write semantics of the P4Runtime specification (ALREADY_EXISTS / NOT_FOUND, "
+         "per-update results of a batch, wildcard reads, meter and counter cells). Seeded randomised histories (1-3 associations, up to 5 live sessions sharing gNB peers and application filters, sessions with one shared or per-flow TEIDs, "
+         "FAR updates buffer <-> forward <-> other gNB, QER gate / QFI updates, PDR updates, flows removed and added, association release, SIGKILL + restart against the populated switch; random slice id, QFI->TC map, default TC; "
+         "a third of the shards with boundary values) are recorded step by step; after every accepted request, every lost association and every start TLC evaluates Up4Image!TablesAreImage "
+         "(interfaces, sessions_uplink / sessions_downlink keys and buffer / tunnel-peer action, terminations key and drop / forward action with TEID, QFI and traffic class, one applications entry per distinct filter and one tunnel_peers "
+         "entry per distinct GTP peer present iff used, meter cells bounded by the live QERs) and InterfacesThroughout.",
+         "Inside the envelope of DESIGN A.4 (one UE address and one downlink forwarding state per session, distinct application filters per direction, at most one QFI-carrying QER per PDR, closed gates only on that QER), checked as a structural invariant; "
+         "applications priority and meter rates are not part of the image (C16 / not stated); histories are sampled. " + TRUST,
+         "5 C04"),
+ "C15": ("TLA+ R-spec Up4Image (identifier discipline: exclusive cells, nothing free while an entry uses it, no duplicates in pool queues) judged by TLC on switch state + guarded pool snapshot of the real agent under injected P4Runtime write failures",
+         "The harness' P4Runtime server fails chosen writes (whole RPC with a plain gRPC status, or one update of a batch with a per-update status; five status codes). For session shapes drawn from the seed and every request kind "
+         "(establishment, FAR / QER / PDR update, flow removal, flow addition, deletion) the request is first run unfaulted to count its Write RPCs n and then repeated with the k-th RPC failing for EVERY k = 1..n, each followed by a probe "
+         "session of another association; then random multi-fault histories and a burst of sessions that cycles the pools, all next to a crowd of live sessions; one shard per six keeps 200-400 sessions live and aims faults at meter writes "
+         "so that a cell released into the wrong pool meets a live holder. After every step TLC evaluates CounterCellsExclusive, MeterCellsExclusive, NotFreeWhileInUse (counter, app-meter, session-meter, tunnel-peer and application IDs used by "
+         "switch entries are not free in the plug-in's pools), NoIdTwiceInPool, PeerIdsInUseStayAllocated and FailedWriteMeansRejection.",
+         "The pools are read through the guarded snapshot hook (IDs not free, duplicates in queues); a leaked identifier (neither free nor used) is not a violation of the statement and is not flagged; positions k are exhaustive per shape, shapes are sampled. " + TRUST,
+         "5 C15"),
+ "C16": ("TLA+ R-spec P4Valid (conformance of a write to the P4Info) judged by TLC on every update the harness' P4Runtime server received from the real agent; regeneration and byte comparison of the compiled-in constants",
+         "Every update of every Write RPC (tables, meters, counters; INSERT / MODIFY / DELETE, also the start-up clearing and the rollback writes) is recorded as sent - ids and byte strings - and TLC evaluates P4Valid!WriteValid against the "
+         "P4Info the harness parsed from the shipped conf/p4/bin/p4info.txt: table known, each match field of the table with the declared kind and a value that fits the declared width, LPM length within the width, the action allowed for entries and "
+         "carrying exactly its declared parameters with fitting values, non-zero priority for tables with ternary / range fields, meter and counter indices inside the declared sizes. Inputs are the C04 histories with boundary values "
+         "(precedences 0 / 65534 / 65535 / beyond, any 32-bit TEID and gNB address, QFIs up to 63, ports touching 0 and 65535, prefix lengths 1..32, slice ids 0..15, traffic classes 0..3). The constants generator is run 4 (12) times on the "
+         "shipped P4Info: outputs identical, and gofmt(output) identical to the committed internal/p4constants/p4constants.go.",
+         "Only the clauses the statement lists are checked (not, e.g., canonical byte strings or masked ternary values); inputs are sampled around the boundaries, not enumerated; the constants comparison is a direct regeneration, not a model. " + TRUST,
+         "5 C16"),
 }
 
 def hooks_commits():
